@@ -398,8 +398,8 @@ func main() {
 			if fs[i].Lib != "" && fs[j].Lib != "" {
 				continue // both define lib.dawn
 			}
-			if (fs[i].Solo || fs[j].Solo) && !r.Thorough() {
-				continue
+			if (fs[i].Solo || fs[j].Solo) && !r.Thorough() || fs[i].Solo && fs[j].Solo {
+				continue // (two such features define the same names)
 			}
 			cyc := strings.Contains(fs[i].Name, "cyclic") || strings.Contains(fs[j].Name, "cyclic")
 			if !r.Thorough() && (i*7+j)%2 != 0 && !cyc {
